@@ -65,10 +65,11 @@ Print Assumptions C16_unresolved_reported.
 
 (* FULL STATEMENT of the resolution step on a grammar of encodings (Lemmas/EncProofs.v): however the
    prop map is written - inline literals wrapped in parentheses / optional wrappers, alias chains of
-   any length, intersections and unions of any width, Partial / Required, nested to any depth -
+   any length, intersections and unions of any width, Partial / Required, Pick / Omit over key types
+   that are unions / aliases of string literals (NamesProofs), nested to any depth -
    resolve_type_elements returns exactly the members the encoding denotes ([den]: the members of the
    literals in order, an alias transparent, Partial / Required flipping only the optional flag) and
-   leaves the state alone (no diagnostic).  Pick / Omit / `extends` / indexed accesses are outside
+   leaves the state alone (no diagnostic).  `extends` / indexed accesses are outside
    the grammar: their laws are above, their composition is decided on real outputs. *)
 Theorem C16_resolution_is_denotation : forall E s e fuel,
   (pdepth e <= fuel)%nat -> pwf E s e -> rte E fuel (enc_p E e) s = (den e, s).
